@@ -202,6 +202,11 @@ func runViews() {
 	rng(fmt.Sprintf("views: %d source kinds x ladder sizes {255x257,256x256,258x259,300x290,513x260,1025x3,3x1025}, six-operation sub-menu, all histories of length <= %d", len(kinds), dl), len(ladder),
 		func(i int) string { return fmt.Sprint(ladder[i]) },
 		func(l *mc.Local, i int) { search(l, ladder[i].kind, ladder[i].w, ladder[i].h, dl, false) })
+	// more than 2^16 rows or columns (a row or column index in something narrower than an int)
+	tall := roots([]size{{3, 65537}, {65537, 3}, {2, 70001}})
+	rng(fmt.Sprintf("views: %d source kinds x sizes {3x65537, 65537x3, 2x70001}, six-operation sub-menu, all histories of length <= 1", len(kinds)), len(tall),
+		func(i int) string { return fmt.Sprint(tall[i]) },
+		func(l *mc.Local, i int) { search(l, tall[i].kind, tall[i].w, tall[i].h, 1, false) })
 	var tiny []size
 	nt := chk.Pick(5, 7)
 	for w := 1; w <= nt; w++ {
